@@ -309,20 +309,27 @@ Proof. repeat constructor. Qed.
 
 Example ex_listed_once : listed_once ex_graph n_dd.
 Proof.
-  intros i e H Hb. destruct i as [|[|[|i]]]; cbn in H; try (injection H as <-); try reflexivity.
-  - cbn in Hb. discriminate.
+  intros i e H Hb. destruct i as [|[|[|i]]]; cbn [ex_graph g_edges nth_error] in H.
+  - injection H as <-. vm_compute. reflexivity.
+  - injection H as <-. vm_compute. reflexivity.
+  - injection H as <-. vm_compute in Hb. discriminate.
   - destruct i; discriminate.
 Qed.
 
 Example ex_bound_scoped : bound_scoped ex_graph n_dd.
 Proof.
-  intros i e H Hb. destruct i as [|[|[|i]]]; cbn in H; try (injection H as <-); try discriminate.
-  destruct i; discriminate.
+  intros i e H Hb. destruct i as [|[|[|i]]]; cbn [ex_graph g_edges nth_error] in H.
+  - injection H as <-. discriminate.
+  - injection H as <-. discriminate.
+  - injection H as <-. vm_compute in Hb. discriminate.
+  - destruct i; discriminate.
 Qed.
 
 Example ex_restat_scoped : restat_scoped ex_graph ex_stmts.
 Proof.
-  intros i e st H Hf Hr. destruct i as [|[|[|i]]]; cbn in H; try (injection H as <-); try discriminate.
+  intros i e st H Hf Hr. destruct i as [|[|[|i]]]; cbn [ex_graph g_edges nth_error] in H.
+  - injection H as <-. discriminate.
+  - injection H as <-. discriminate.
   - vm_compute in Hf. discriminate.
   - destruct i; discriminate.
 Qed.
@@ -397,9 +404,9 @@ Example C11_rejects_parser_classes_nonvacuous :
   bytes_eqb [112; 111; 111; 108] s_dyndep = false.
 Proof. repeat split; vm_compute; reflexivity. Qed.
 
-(* truncation: the example file cut at every one of its 99 proper prefixes is rejected by parser or
-   loader, EXCEPT the cut before the restat line of ... no: here the restat line belongs to the
-   first statement, so every proper prefix is rejected *)
+(* truncation: every one of the 100 proper prefixes (lengths 0..99) of the example file is rejected
+   by the parser or by the loader (the restat line belongs to the FIRST statement here, so the one
+   undetectable cut does not occur; see C11_truncation_restat_cut_accepted for a file where it does) *)
 Example C11_truncation_nonvacuous :
   length ex_file = 100%nat /\
   forallb (fun k => match dyndep_load ex_graph n_dd (Some (firstn k ex_file)) with
